@@ -27,7 +27,7 @@ const (
 // Case is one enumerated fault sequence.
 type Case struct {
 	Initial  uint64   `json:"initial_height"`
-	Shape    string   `json:"chain_shape"` // x = non-empty, e = empty; '|' = submission round
+	Shape    string   `json:"chain_shape"` // x = non-empty, e = empty, r = repeats the previous tx list; '|' = submission round
 	Hdr      []string `json:"header_outcomes"`
 	Data     []string `json:"data_outcomes"`
 	Restarts []int    `json:"restart_after_round"`
@@ -101,6 +101,9 @@ func (s *sim) produce(kind rune) error {
 	s.t = s.t.Add(time.Second)
 	if kind == 'e' {
 		s.seq.Push(world.SeqResp{Kind: world.SeqEmpty, Time: s.t})
+	} else if kind == 'r' && s.txN > 0 {
+		// the same transaction list as the previous non-empty block (a different block: height, time and metadata differ)
+		s.seq.Push(world.SeqResp{Kind: world.SeqTxs, Time: s.t, Txs: [][]byte{[]byte(fmt.Sprintf("c06-%d-a", s.txN)), []byte(fmt.Sprintf("c06-%d-b", s.txN))}})
 	} else {
 		s.txN++
 		s.seq.Push(world.SeqResp{Kind: world.SeqTxs, Time: s.t, Txs: [][]byte{[]byte(fmt.Sprintf("c06-%d-a", s.txN)), []byte(fmt.Sprintf("c06-%d-b", s.txN))}})
@@ -437,7 +440,7 @@ func Run(r *vk.Run) {
 		}
 	}
 	rec(nil, maxLen)
-	shapes := []string{"xex|xe", "eex|ex", "xxx|x", "e|xee"}
+	shapes := []string{"xex|xe", "eex|ex", "xxx|x", "e|xee", "xrx|r", "xer|xr"}
 	inits := []uint64{1, 2, 7}
 	var cases []Case
 	for i, hs := range seqs {
@@ -461,7 +464,7 @@ func Run(r *vk.Run) {
 		go func() {
 			defer wg.Done()
 			for c := range ch {
-				run(r, c)
+				r.Guard(c, func() { run(r, c) })
 			}
 		}()
 	}
